@@ -2226,13 +2226,22 @@ insert_list:
         }
         return false;
     }
+    // The run-queue lock must be released before try_work_stealing(): a
+    // temporary AtomicRunQ in the idler's loop condition would live (and keep
+    // the lock) until the end of the whole condition, and two idle vCPUs
+    // stealing from each other would dead-lock (one holds its runq lock and
+    // waits for vcpu_list_lock, the other holds vcpu_list_lock and waits for
+    // that runq lock).
+    static inline bool runq_single(const RunQ& rq) {
+        return AtomicRunQ(rq).single();
+    }
     static void* idler(void*) {
         RunQ rq;
         auto last_idle = now;
         auto vcpu = rq.current->get_vcpu();
         while (vcpu->state != states::DONE) {
             while (unlikely(resume_threads_inlined(vcpu, rq) > 0) ||
-                   likely(!AtomicRunQ(rq).single())   ||
+                   likely(!runq_single(rq))             ||
                    likely(try_work_stealing(vcpu))) {
                 thread_yield();
                 if (vcpu->state == states::DONE)
